@@ -396,8 +396,8 @@ namespace Givaro
 
     inline bool Modular<Log16>::isUnit ( const Rep a ) const
     {
-        // p has to be prime
-        return isOne(a) || isMOne(a);
+        // p has to be prime: every non-zero element is a unit
+        return !isZero(a);
     }
 
 
